@@ -72,10 +72,18 @@ def generate():
         if not subs:
             raise ShapeError("update_file does not submit a task")
         for c in subs:
-            if not c.args or ast.unparse(c.args[0]) != "self._write_file":
+            args = [ast.unparse(a) for a in c.args]
+            if args[:1] == ["self._run_task"]:
+                # _run_task(task, file_name, *args) calls task(file_name, *args): the arguments pass through unchanged
+                rt = astlib.find_func(cls, "_run_task")
+                if [a.arg for a in rt.args.args] != ["self", "task", "file_name"] or rt.args.vararg is None or \
+                        "return task(file_name, *%s)" % rt.args.vararg.arg not in ast.unparse(rt):
+                    raise ShapeError("_run_task does not pass its arguments through to the task")
+                args = args[1:]
+            if args[:1] != ["self._write_file"]:
                 raise ShapeError("update_file submits something other than self._write_file")
             kw = {k.arg: ast.unparse(k.value) for k in c.keywords}
-            if not ((len(c.args) == 4 and ast.unparse(c.args[3]) == "use_fsync") or kw.get("use_fsync") == "use_fsync"):
+            if not ((len(args) == 4 and args[3] == "use_fsync") or kw.get("use_fsync") == "use_fsync"):
                 return False
         for c in astlib.calls_in(uf, "update_file"):
             kw = {k.arg: ast.unparse(k.value) for k in c.keywords}
@@ -103,7 +111,10 @@ def generate():
         # use_fsync must reach os.fsync unchanged: update_file passes it through
         uf = astlib.find_func(cls, "update_file")
         sub = astlib.calls_in(uf, "submit")
-        if len(sub) != 1 or [ast.unparse(a) for a in sub[0].args] != ["self._write_file", "file_name", "new_file_contents", "use_fsync"]:
+        sargs = [ast.unparse(a) for a in sub[0].args] if len(sub) == 1 else []
+        if sargs[:1] == ["self._run_task"]:
+            sargs = sargs[1:]
+        if len(sub) != 1 or sargs != ["self._write_file", "file_name", "new_file_contents", "use_fsync"]:
             raise ShapeError("update_file does not submit _write_file(file_name, new_file_contents, use_fsync)")
         idx_mk = [i for i, s in enumerate(body) if isinstance(s, ast.Expr) and isinstance(s.value, ast.Call) and ast.unparse(s.value.func) == "os.makedirs"]
         idx_with = [i for i, s in enumerate(body) if isinstance(s, ast.With)]
